@@ -686,11 +686,11 @@ def _plan():
     add("quick", (8, INT, (), 2, False))
     for asz, primary, pre in ((8, SYM, PRE1), (32, INT, PRE2)):
         add("quick", (asz, primary, pre, 2, False))
-    # thorough: depth 4 on three systems (base menu), depth 3 with the extended menu on the three others, depth 3 behind
-    # seven seeded stores (one search = one process; sized for <= 15 min at load ~130: about 350k transitions)
+    # thorough: depth 4 on three systems (base menu), depth 3 with the extended menu on two others, depth 3 behind seven
+    # seeded stores covering all six systems (one search = one process; sized for <= 15 min at load ~130: ~300k transitions)
     for asz, primary in ((8, SYM), (32, INT), (32, SUM)):
         add("thorough", (asz, primary, (), 4, False))
-    for asz, primary in ((8, INT), (8, SUM), (32, SYM)):
+    for asz, primary in ((8, INT), (32, SYM)):          # (8, A+B) is reached through its seeded store below
         add("thorough", (asz, primary, (), 3, True))
     for asz in (8, 32):
         for primary, pre in ((SYM, PRE1), (INT, PRE2), (SUM, PRE3)):
